@@ -11,7 +11,7 @@ RT_T = [(1, 3, 0, 2), (0, 7, 3, 0), (1, 4, 0, 0), (1, 8, 0, 1), (0, 12, 0, 3), (
 FB_Q = [(1, 3, 0, 0), (1, 3, 0, 1), (1, 3, 0, 3)]
 FB_T = [(0, 4, 0, 0), (1, 7, 2, 1), (1, 7, 2, 3), (1, 12, 0, 3), (0, 0, 0, 0), (1, 0, 0, 1), (1, 3, 0, 2), (1, 8, 0, 0)]
 # (H, n, start, path, bit_lo, bit_hi): a one-bit range = concrete flipped bit (Reader paths), wider = symbolic (parse_record)
-FL_Q = [(1, 0, 0, 3, 0, 32), (1, 0, 0, 0, 0, 1), (1, 0, 0, 1, 0, 1), (1, 0, 0, 0, 1, 2), (1, 0, 0, 1, 2, 3), (1, 2, 0, 0, 3, 4), (1, 2, 0, 1, 31, 32)]
+FL_Q = [(1, 0, 0, 3, 0, 32), (1, 0, 0, 0, 0, 1), (1, 0, 0, 1, 0, 1), (1, 0, 0, 0, 1, 2), (1, 0, 0, 1, 2, 3), (1, 2, 0, 0, 4, 5), (1, 2, 0, 1, 31, 32)]
 FL_T = [(1, 3, 0, 3, 0, 32), (0, 4, 0, 3, 0, 32), (0, 0, 0, 3, 0, 32), (1, 7, 0, 3, 0, 32)] + \
        [(1, 2, 0, p, b, b + 1) for p in (0, 1, 2) for b in (0, 1, 2, 3, 4, 5, 7, 8, 16, 30, 31)]
 # (H, n, start, path, straddle)
